@@ -158,7 +158,7 @@ theorem mTok_pos (prev c : UInt8) (t : Bytes) : 1 ≤ (mTok prev c t).1.bytes.le
   · simp [Seg.bytes]
   split
   · rename_i h
-    have : (fun b => b != NL) c = true := by simp [h.1, DASH, NL]
+    have : (fun b => b != NL && b != CR) c = true := by simp [h.1, DASH, NL, CR]
     simp [Seg.bytes, spanP, this]
   split
   · simp [Seg.bytes]
